@@ -108,6 +108,8 @@ pub enum Damage {
     FillPayload(usize, u8),
     /// one extra byte appended to the payload of record r, length field raised by one (an odd-length record in an otherwise intact stream)
     PadByte(usize, u8),
+    /// replace the payload of (string) record r by n copies of one byte value, length field n + 4
+    GrowPayload(usize, u8, usize),
     Noise(Vec<(usize, u8)>),
     Random(Vec<u8>),
     PrefixPlusRandom(usize, Vec<u8>),
@@ -202,6 +204,15 @@ pub fn apply(img: &[u8], recs: &[Rec], d: &Damage) -> Vec<u8> {
             v.extend_from_slice(&img[end_of(*r)..]);
             v
         }
+        Damage::GrowPayload(r, byte, n) => {
+            let mut v = img[..recs[*r].at].to_vec();
+            v.extend_from_slice(&((*n + 4) as u16).to_be_bytes());
+            v.push(recs[*r].rt);
+            v.push(recs[*r].dt);
+            v.extend(std::iter::repeat(*byte).take(*n));
+            v.extend_from_slice(&img[end_of(*r)..]);
+            v
+        }
         Damage::PrefixPlusRandom(t, b) => {
             let mut v = img[..*t].to_vec();
             v.extend_from_slice(b);
@@ -237,6 +248,12 @@ fn record_faults(recs: &[Rec], r: usize, foreign: &[Vec<u8>], full_types: bool) 
     }
     for b in [0x00u8, b'x'] {
         v.push(Damage::PadByte(r, b));
+    }
+    // a string record grown to tens of kilobytes of bytes that are not UTF-8 (whatever a lenient decoder substitutes
+    // for them must still fit a record when the library is written again); first records and one in 16 of the rest
+    if recs[r].dt == 6 && (r < 3 || r % 16 == 0) {
+        v.push(Damage::GrowPayload(r, 0xE9, 21846));
+        v.push(Damage::GrowPayload(r, 0xFF, 65530));
     }
     v.push(Damage::Delete(r));
     v.push(Damage::Duplicate(r));
@@ -611,6 +628,7 @@ impl Check for C10 {
                 Damage::Len(..) | Damage::EmptyPayload(_) => out.probes.hit("case_length_field"),
                 Damage::FillPayload(..) => out.probes.hit("case_payload_filled"),
                 Damage::PadByte(..) => out.probes.hit("case_odd_length_record_with_extra_byte"),
+                Damage::GrowPayload(..) => out.probes.hit("case_string_record_grown_to_kilobytes_of_non_utf8"),
                 Damage::Rtype(..) => out.probes.hit("case_record_type"),
                 Damage::Dtype(..) => out.probes.hit("case_data_type"),
                 Damage::Delete(_) => out.probes.hit("case_record_deleted"),
